@@ -281,6 +281,16 @@ def bookkeeping(ctx, crate, crs, e, tag):
 
 
 def iter_protocol(ctx, crate, crs, e, tag):
+    # the iteration protocol decided below lives in `next`; every other Iterator method is std's default built on it.  A
+    # specialised override (fold / nth / count / last ...) is a second implementation of the protocol that std's adaptors and
+    # consumers (`for_each`, `sum`, `skip`) dispatch to instead (seeds C19-9, C19-18)
+    for b in crate.bodies:
+        tr = str(b.d.get("impl_trait") or "")
+        if b.d.get("impl_adt") == MI and tr in ("std::iter::Iterator", "std::iter::DoubleEndedIterator", "std::iter::ExactSizeIterator") \
+                and b.kind in ("Fn", "AssocFn"):
+            m = b.path.split("::")[-1]
+            ctx.ob("iter-protocol" + tag, b.key, "only-next-is-hand-written:%s" % m, m in ("next", "size_hint"), b.loc(),
+                   "MappingIter implements `next` (and at most `size_hint`); `%s` is %s" % (m, "that" if m in ("next", "size_hint") else "a second, specialised implementation of the iteration protocol"))
     nb = None
     for b in crate.bodies:
         if b.d.get("impl_adt") == MI and b.d.get("impl_trait") == "std::iter::Iterator" and b.path.endswith("::next"):
